@@ -206,6 +206,16 @@ def solve(pc, goal, timeout_ms, quick_ms=3000):
         return {'verdict': verdict, 'model': model, 'ms': int((time.time() - t0) * 1000), 'backend': backend,
                 'why': why, 'approx': approx}
     ver = 'z3-%s' % z3.get_version_string()
+    if z3.is_false(z3.simplify(goal)):
+        # a structural clause that is literally false on this path: the obligation holds only if the path is infeasible.
+        # The executor keeps every path it cannot refute; give the solver a short look and otherwise report the refutation
+        # (no model: nothing to replay) instead of spending minutes on an `unknown`.
+        r0, s0 = _z3_check(full, min(10000, timeout_ms))
+        if r0 == z3.unsat:
+            return done('unsat', backend=ver)
+        if r0 == z3.sat:
+            return done('sat', s0.model(), ver)
+        return done('sat', None, ver, why='clause is literally false on a path whose infeasibility could not be shown')
     r, s = _z3_check(full, min(quick_ms, timeout_ms))
     if r == z3.unsat:
         return done('unsat', backend=ver)
